@@ -3,10 +3,11 @@
 Bounded-exhaustive differential exploration (SeqExplorer over call histories of one shape:
 update()* encrypt()/decrypt()/read()* digest()).  For every stateful class configuration
 ("target", see _c09_targets.py) and every stream length of that class's boundary set, ALL
-segmentations of a stated family (all compositions into <= 3 parts with cut points in the
-boundary set, empty parts and "no call at all" included; all 2^(L-1) compositions of short
-streams and of a window straddling each internal block/cache boundary; AAD x message and
-update x read jointly with <= 2 parts each) are executed on a fresh real object, crossed with
+segmentations of a stated family (all compositions into <= 3 parts - 4 in the thorough tier -
+with cut points in the boundary set, empty parts and "no call at all" included; all 2^(L-1)
+compositions of short streams and of a window straddling each internal block/cache boundary;
+AAD x message and update x read jointly with <= 2 parts each - thorough: also 3 parts x <= 2
+parts) are executed on a fresh real object, crossed with
 the caller-side buffer type of each segment and the output style of each call.  The oracle is
 the one-shot call (bytes in, value returned) on a fresh object of the same class; the one-shot
 result itself is compared with an independent reference (mc.ref.*, hashlib, hmac).  SIV and
@@ -39,6 +40,7 @@ STYLES = OUTS + ("mixed",)
 
 # thorough tier: all 2^(L-1) compositions of streams of L <= this many units and of a window of this many units
 ALL_UNITS_THOROUGH = 14
+ALL_WINDOW_AEAD_THOROUGH = 13    # ... width of the windows for the AEAD classes (their short streams: 14 as well)
 # thorough tier: SIV / TupleHash component vectors = all compositions of strings of up to this many bytes
 SIV_SMALL_THOROUGH = 9
 TH_SMALL_THOROUGH = 9
@@ -715,6 +717,8 @@ class Stats(object):
         self.nontrivial = 0
         self.sampled = False
         self.combo_multi = 0
+        self.sweep4 = 0
+        self.joint3 = 0
         self.calls = {}
 
     def note(self, trace):
@@ -742,6 +746,8 @@ class Stats(object):
         for n, k in self.calls.items():
             acc.count("_calls/%d" % min(n, 16), k)
         acc.count("_combo_multi", self.combo_multi)
+        acc.count("_sweep_4part", self.sweep4)
+        acc.count("_joint_3part", self.joint3)
         acc.count("nontrivial_cases", self.nontrivial)
         acc.count("_cases/" + tname, self.nontrivial)
 
@@ -772,7 +778,7 @@ def run_part(T, dirn, part, full, thorough, acc):
     dnum = "edh".index(dirn)
     ns = len(T.streams)
 
-    def go(b, gen):
+    def go(b, gen, mode=0):
         if b is None:
             return
         for comp, plan in gen:
@@ -780,6 +786,12 @@ def run_part(T, dirn, part, full, thorough, acc):
             check_plan(b, plan, acc, stats)
             if plan[2] and len(plan[0]) > ns:
                 stats.combo_multi += 1
+            if mode == 1:
+                if comp is not None and len(comp) == 3:
+                    stats.sweep4 += 1
+            elif mode == 2:
+                if (comp[0] is not None and len(comp[0]) == 2) or (comp[1] is not None and len(comp[1]) == 2):
+                    stats.joint3 += 1
             if not stats.sampled and len(plan[0]) >= 4 and b.lengths[-1]:
                 stats.sampled = True
                 acc.sample({"case": describe(T, dirn, b.lengths, plan), "part": part,
@@ -799,22 +811,25 @@ def run_part(T, dirn, part, full, thorough, acc):
         if done:
             acc.seen("referenced", T.name)
     elif part.startswith("sweep"):
-        s = int(part[5:])
+        s = int(part[5:].split(":")[0])
         st = T.streams[s]
-        for L in st.lens:
+        for L in (st.lens if ":" not in part else [st.lens[int(part.split(":")[1])]]):   # thorough AEADs: one shard per length
             lengths = _defaults(T)
             lengths[s] = L
             b = make_base(T, dirn, lengths, acc)
-            go(b, gen_sweep(T, s, lengths, full, ctr0=L, deep=thorough))
+            go(b, gen_sweep(T, s, lengths, full, ctr0=L, deep=thorough), 1)
     elif part.startswith("joint"):
         L0s = T.streams[0].joint
         if ":" in part:                              # thorough: one shard per length of the first stream
             L0s = [L0s[int(part.split(":")[1])]]
+        c0, c1 = T.streams[0].c, T.streams[1].c
         for L0 in L0s:
             for L1 in T.streams[1].joint:
                 lengths = [L0, L1]
                 b = make_base(T, dirn, lengths, acc)
-                go(b, gen_joint(T, lengths, full and thorough, ctr0=L0 + L1, deep=thorough))
+                # the 3 x 2 part cases: all joint lengths but 2c-1 and 2c
+                deep = thorough and L0 not in (2 * c0 - 1, 2 * c0) and L1 not in (2 * c1 - 1, 2 * c1)
+                go(b, gen_joint(T, lengths, full and thorough, ctr0=L0 + L1, deep=deep), 2)
     elif part.startswith("all"):
         s = int(part[3:])
         st = T.streams[s]
@@ -828,7 +843,7 @@ def run_part(T, dirn, part, full, thorough, acc):
             b = make_base(T, dirn, lengths, acc)
             go(b, gen_allcomps(T, s, lengths, 0, n * g, ctr0=n))
         if full:
-            w = ALL_UNITS_THOROUGH if thorough else 10
+            w = (ALL_WINDOW_AEAD_THOROUGH if T.kind == "aead" else ALL_UNITS_THOROUGH) if thorough else 10
             for center in st.win:
                 prefix = max(0, center - (w // 2) * g)
                 lengths = _defaults(T)
@@ -1199,28 +1214,39 @@ def selftests(ctx):
             ctx.acc.error("reference %s selftest raised %r" % (m.__name__, e))
 
 
+# seconds per shard measured once on the thorough grid; used for scheduling (heaviest first) only
+_COST = {
+    "aead/CCM all0": 3.5, "aead/CCM all1": 3.0, "aead/CCM joint": 1.7, "aead/CCM sweep0": 2.3, "aead/CCM sweep1": 5.7,
+    "aead/CCM values": 1.4, "aead/CHAPOLY all0": 3.7, "aead/CHAPOLY all1": 6.7, "aead/CHAPOLY joint": 3.2,
+    "aead/CHAPOLY sweep1": 4.8, "aead/CHAPOLY values": 1.2, "aead/EAX all0": 7.5, "aead/EAX all1": 9.2,
+    "aead/EAX joint": 3.5, "aead/EAX sweep0": 0.9, "aead/EAX sweep1": 21.6, "aead/EAX values": 3.3,
+    "aead/EAX/8 all0": 15.2, "aead/EAX/8 all1": 16.8, "aead/EAX/8 joint": 6.8, "aead/EAX/8 sweep0": 1.7,
+    "aead/EAX/8 sweep1": 39.3, "aead/EAX/8 values": 6.1, "aead/GCM all0": 4.2, "aead/GCM all1": 6.0,
+    "aead/GCM joint": 1.9, "aead/GCM sweep0": 0.4, "aead/GCM sweep1": 11.5, "aead/GCM values": 1.8,
+    "aead/OCB all0": 4.1, "aead/OCB all1": 4.2, "aead/OCB sweep0": 1.2, "aead/OCB sweep1": 1.2, "aead/OCB values": 0.6,
+    "blk/CBC all0": 3.4, "blk/CBC sweep0": 1.3, "blk/CFB all0": 4.0, "blk/CFB sweep0": 1.5, "blk/CTR all0": 4.7,
+    "blk/CTR sweep0": 3.0, "blk/CTR values": 0.8, "blk/ECB all0": 3.2, "blk/ECB sweep0": 1.2, "blk/OFB all0": 3.3,
+    "blk/OFB sweep0": 1.3, "blk/OPENPGP all0": 2.6, "hash all0": 2.2, "hash sweep0": 0.6, "mac all0": 3.7,
+    "mac sweep0": 1.7, "stream/ARC4 all0": 2.1, "stream/ChaCha20 all0": 2.9, "stream/ChaCha20 sweep0": 1.9,
+    "stream/Salsa20 all0": 3.0, "stream/Salsa20 sweep0": 1.8, "xof all0": 1.9, "xof all1": 1.0, "xof sweep0": 0.5,
+    "xof/K12 all0": 3.8, "xof/K12 all1": 2.4, "xof/K12 sweep0": 3.1,
+}
+
+
 def _cost_rank(sh):
-    """thorough tier: rough relative cost of a shard (measured once), heaviest first; affects scheduling only"""
     spec, part = sh[0], sh[4]
-    fam = spec[0]
-    kind = part.split(":")[0].rstrip("0123456789")
-    w = {"all": 30.0, "sweep": 12.0, "values": 6.0, "joint": 3.0, "ref": 0.2, "romut": 0.01}[kind]
-    if fam == "aead":
-        w *= 3.0 if spec[1] != "OCB" else 0.6
-        if spec[2] in ("DES3", "Blowfish"):
-            w *= 2.5
-        if kind == "sweep" and part == "sweep0":
-            w *= 0.5
-    elif fam == "blk":
-        w *= 1.0 if spec[1] in ("AES",) else 1.6
-        if kind == "joint":
-            w = 0
-    elif fam == "stream":
-        w *= 1.0
-    elif fam == "xof":
-        w *= 0.6 if spec[1] != "KangarooTwelve" else 2.0
-    else:
-        w *= 0.25
+    f = spec[0]
+    if f == "aead":
+        f = "aead/%s%s" % (spec[1], "/8" if spec[2] in ("DES3", "Blowfish") else "")
+    elif f == "blk":
+        f = "blk/%s" % spec[3]
+    elif f == "stream":
+        f = "stream/%s" % spec[1]
+    elif f == "xof" and spec[1] == "KangarooTwelve":
+        f = "xof/K12"
+    w = _COST.get("%s %s" % (f, part.split(":")[0]), 0.3)
+    if part.startswith("sweep") and ":" in part:
+        w *= (int(part.split(":")[1]) + 2) ** 2.5 / 4100.0       # one length of the sweep: grows with the number of cuts
     return -w
 
 
@@ -1233,7 +1259,11 @@ def shards_for(thorough):
         out.append((spec, full, thorough, T.dirs[0], "ref"))
         for dirn in T.dirs:
             for s in range(ns):
-                out.append((spec, full, thorough, dirn, "sweep%d" % s))
+                if thorough and spec[0] == "aead" and s == ns - 1:
+                    for i in range(len(T.streams[s].lens)):
+                        out.append((spec, full, thorough, dirn, "sweep%d:%d" % (s, i)))
+                else:
+                    out.append((spec, full, thorough, dirn, "sweep%d" % s))
                 out.append((spec, full, thorough, dirn, "all%d" % s))
             if ns == 2 and thorough:
                 for i in range(len(T.streams[0].joint)):
@@ -1313,8 +1343,8 @@ def run(ctx):
             ctx.require(any(opt in n and a.n.get("_cases/" + n, 0) >= 200 for n in names),
                         "no class configuration with option %r was exercised" % opt)
         ctx.require(len(names) >= 240, "thorough tier lost class configurations: %d" % len(names))
-        for n in names:
-            T = target(dict((target(sp, thorough).name, sp) for sp, _ in specs)[n], thorough) if False else None
+        ctx.require(a.n.get("_sweep_4part", 0) > 0, "no 4-part sweep was run")
+        ctx.require(a.n.get("_joint_3part", 0) > 0, "no joint case with a stream in 3 parts was run")
     ctx.coverage_extra.update({
         "evaluations": a.n.get("evaluations", 0),
         "distinct_nontrivial": len(d.get("shapes", ())),
@@ -1331,24 +1361,76 @@ def run(ctx):
         "grid": {
             "lengths": "per stream: {0,1,c-1,c,c+1,2c-1,2c,2c+1} around the class's block/cache size c, plus "
                        "8 blocks+-1 (CTR keystream), 63..65/127..129 (ChaCha/Salsa), 8191..8193/16383..16385 "
-                       "(+- customization suffix) for KangarooTwelve, MD padding boundary; ECB/CBC: 0,1,2,3,7,8,9 blocks",
-            "segmentations": "all compositions into <=3 parts with cuts in the boundary set (empty parts and 'no call' "
+                       "(+- customization suffix) for KangarooTwelve, MD padding boundary; ECB/CBC: 0,1,2,3,7,8,9 blocks" +
+                       ("; thorough adds 3c,4c,8c +-1 (hashes, MACs), 3/4 rates +-1 (XOF input and output), 16 "
+                        "blocks +-1 (CTR and the CTR inside GCM/CCM/EAX: two refills of the key stream), 4,8,16 blocks +-1 "
+                        "(OCB: L-table index changes), 13,14,29,30 and 0xFF00-1..0xFF00+1 bytes of CCM AAD (cache fill "
+                        "behind the 2-byte / 6-byte length encoding), 15,16,17,24 blocks (ECB/CBC), 191..193/255..257 "
+                        "(ChaCha/Salsa); the exact sets are listed under thorough_only" if thorough else ""),
+            "segmentations": "all compositions into <=%d parts with cuts in the boundary set (empty parts and 'no call' "
                              "included); all 2^(L-1) compositions for L<=%d units and of a %d-unit window straddling each "
-                             "boundary; two streams jointly with <=2 parts each"
-                             % ((12, 12) if thorough else (10, 10)),
+                             "boundary%s; two streams jointly with <=2 parts each%s"
+                             % ((4, ALL_UNITS_THOROUGH, ALL_UNITS_THOROUGH,
+                                 " (%d-unit windows for the AEAD classes)" % ALL_WINDOW_AEAD_THOROUGH,
+                                 ", and 3 parts of one stream x <=2 parts of the other (stream lengths 0,1,c-1,c,c+1,2c+1)")
+                                if thorough else (3, 10, 10, "", "")),
             "buffer_types": "bytes, bytearray, read-only memoryview, writable memoryview, writable memoryview slice at "
                             "offset 3 of a larger bytearray: all assignments for <=2 segments, 5 rotations for 3 "
-                            "(1 rotation on the reduced grid)",
+                            "(1 rotation on the reduced grid%s)" % (", for 4 segments and for the 3x2 joint cases"
+                                                                    if thorough else ""),
             "outputs": "returned, output=bytearray, output=memoryview, output=memoryview slice at odd offset, "
                        "output is the input buffer, and a rotating mix; first segment via constructor data=; "
-                       "last call as encrypt_and_digest/decrypt_and_verify",
+                       "last call as encrypt_and_digest/decrypt_and_verify" +
+                       (" (also after earlier encrypt()/decrypt() calls for GCM, CCM, EAX, ChaCha20-Poly1305, which "
+                        "document the argument as a piece of data)" if thorough else ""),
             "reduced_grid_classes_in_quick": [target(s, thorough).name for s, p in specs if not p] if ctx.quick else [],
         },
     })
+    if thorough:
+        deep = [target(sp, True).name for sp in TG.deep_specs()]
+        ctx.coverage_extra["thorough_only"] = {
+            "class_configurations_added": len(deep),
+            "class_configurations_added_list": deep,
+            "parameters_varied": "CTR: prefix length 0 / half block / block-1 / block-2, first counter value with carries "
+                                 "inside and at the edge of the 8-block key stream batch, Util.Counter little and big "
+                                 "endian with prefix and suffix (AES, 3DES); CFB: every segment size 8..block (AES, 3DES); "
+                                 "AES-192/256 for OFB/CFB/OPENPGP, 2-key 3DES, Blowfish-448, CAST-40; ChaCha20/XChaCha20 "
+                                 "positioned with seek() inside a block, at its edges and 65 bytes before the 2^32-block "
+                                 "carry; ARC4 drop= and 5/256-byte keys; GCM nonce 1/12/16 bytes, tag 4/12, AES-192/256; "
+                                 "EAX AES-192/256, nonce 1/16, tag 4; OCB AES-192/256, nonce 1/12/15, tag "
+                                 "8/12, portable AES; CCM AES-192/256, nonce 7/12/13, tag 4/8, portable AES; BLAKE2 digest "
+                                 "1/28/48 bytes and key 1/64 bytes; HMAC over 5 more digests and with keys of block size, "
+                                 "block size + 1; CMAC over AES-192/256, DES, Blowfish, CAST, ARC2, truncated tags; KMAC "
+                                 "tag 8/16/137/200 bytes; cSHAKE without and with a customization longer than the rate; "
+                                 "TurboSHAKE domain 0x01/0x7F; KangarooTwelve customization of 1 and 8190 bytes",
+            "stream_lengths_per_class": {
+                target(sp, True).name: " | ".join("%s: %s" % (st.name, ",".join(str(x) for x in st.lens))
+                                                 for st in target(sp, True).streams) for sp, _ in specs},
+            "all_compositions_windows_per_class": {
+                target(sp, True).name: " | ".join("%s: %s" % (st.name, ",".join(str(x) for x in st.win))
+                                                 for st in target(sp, True).streams) for sp, _ in specs},
+            "calls_per_history_histogram": {str(k): v for k, v in sorted(calls.items())},
+            "sweep_cases_with_4_parts": a.n.get("_sweep_4part", 0),
+            "joint_cases_with_a_stream_in_3_parts": a.n.get("_joint_3part", 0),
+            "combined_last_call_after_earlier_calls": a.n.get("_combo_multi", 0),
+            "siv": "AES-128/192/256 SIV with and without nonce: all compositions of 1..%d bytes into components; vectors "
+                   "of 0..3 components with lengths in {1,15,16,17,32,33} and of 4 components with lengths in %s; "
+                   "messages 0,1,15,16,17,33,127,128,129 bytes (0,1,16,17 for 4 components); both directions"
+                   % (SIV_SMALL_THOROUGH, list(SIV_LENS4)),
+            "tuplehash": "all tuples (empty components included) over strings of 0..%d bytes with all groupings into "
+                         "update(*items) calls; tuples of <= 3 components with lengths in {0,1,rate-4..rate+1}"
+                         % TH_SMALL_THOROUGH,
+        }
     ctx.assume("data values: seeded SHAKE256 stream for every case; ascending (quick) and ascending/zero/0xFF (thorough) "
                "on the <=3-part sweeps only; keys, nonces and IVs are seeded constants per class")
-    ctx.assume("segmentations beyond the stated families (e.g. 4+ parts with far-apart cuts on long streams) are not enumerated")
-    ctx.assume("streams longer than 2 cache blocks + 1 (3 in thorough; 16 blocks for CTR/ECB/CBC; 3 chunks for K12) are not covered")
+    if thorough:
+        ctx.assume("segmentations beyond the stated families (e.g. 5+ parts with far-apart cuts on long streams) are not enumerated")
+        ctx.assume("streams longer than the listed lengths (8 blocks + 1 for hashes and MACs, 4 rates + 1 for XOFs, 16 blocks "
+                   "+ 1 for CTR, 24 blocks for ECB/CBC, 16 blocks + 1 inside AEADs, 0xFF00 + 1 bytes of CCM AAD, 3 chunks + 1 "
+                   "for K12) are not covered")
+    else:
+        ctx.assume("segmentations beyond the stated families (e.g. 4+ parts with far-apart cuts on long streams) are not enumerated")
+        ctx.assume("streams longer than 2 cache blocks + 1 (3 in thorough; 16 blocks for CTR/ECB/CBC; 3 chunks for K12) are not covered")
     ctx.assume("overlapping-but-not-identical input/output buffers, non-contiguous or non-byte-format memoryviews are "
                "outside the documented interface and not exercised")
     ctx.assume("a read-only memoryview whose underlying storage the caller overwrites after the call is logged as an "
